@@ -112,6 +112,154 @@ class FindCacheJson(Bounded):
         return True
 
 
+# ---- regeneration histories through the real driver and GNU make (bounded) -------------------------------------------
+
+import os as _os
+
+
+def _write(p, text):
+    _os.makedirs(_os.path.dirname(p), exist_ok=True)
+    with open(p, 'w') as f:
+        f.write(text)
+
+
+def _append(p, text):
+    with open(p, 'a') as f:
+        f.write(text)
+
+
+EDITS = {
+    'none': lambda s: None,
+    'edit-build': lambda s: _append(s + '/build.bfg', "copy_file('extra.txt')\n"),
+    'touch-options': lambda s: _os.utime(s + '/options.bfg'),
+    'edit-options': lambda s: _append(s + '/options.bfg', "argument('other', default='y')\n"),
+    'edit-sub': lambda s: _append(s + '/sub/build.bfg', "copy_file('t.txt')\n"),
+    'add-match-d1': lambda s: _write(s + '/d1/b.txt', ''),
+    'add-nomatch-d1': lambda s: _write(s + '/d1/b.md', ''),
+    'add-match-deep': lambda s: _write(s + '/d2/deep/z.dat', ''),
+    'rm-match': lambda s: _os.remove(s + '/d1/a.txt'),
+    'add-dir': lambda s: _write(s + '/d2/new/w.dat', ''),
+    'rename-dir': lambda s: _os.rename(s + '/d2/deep', s + '/d2/deeper'),
+    'add-empty-dir': lambda s: _os.makedirs(s + '/d2/empty'),
+    'fill-empty-dir': lambda s: _write(s + '/d2/empty/w.dat', ''),
+}
+BUILD_FILES = ('Makefile', '.bfg_find_deps', '.bfg_find_cache', 'compile_commands.json')
+
+
+class RegenHistory(Bounded):
+    """Edit sequences on a generated project (two find_files calls over different directories, a submodule, an
+    options file), each followed by GNU make running the generated regeneration rule (`bfg9000 regenerate --lazy`
+    through a launcher of the tree under test): afterwards Makefile, .bfg_find_deps, .bfg_find_cache and
+    compile_commands.json are byte-identical to a fresh configure of the edited source into the same directory, and
+    a second make regenerates nothing."""
+    native_chunk = 1
+    target = 'bfg9000/builtins/find.py::find_check_cache'
+    properties = ('C08',)
+    reason = 'history over the file system, mtimes and an external make process: runtime contract only'
+
+    def native_inputs(self, case, alphabet, maxlen, rng, extra=0):
+        names = [e for e in EDITS]
+        for e in names:
+            yield {'edits': [e]}
+        pairs = [('add-match-d1', 'edit-sub'), ('edit-sub', 'add-match-d1'), ('rm-match', 'add-match-d1'),
+                 ('add-dir', 'add-nomatch-d1'), ('rename-dir', 'edit-build'), ('touch-options', 'add-match-deep'),
+                 ('add-nomatch-d1', 'none'), ('edit-options', 'rm-match'), ('add-empty-dir', 'add-dir'), ('add-empty-dir', 'fill-empty-dir')]
+        for a, b in pairs:
+            yield {'edits': [a, b]}
+        # the consequence of a watched-directory set that was not refreshed: only the last step is compared
+        yield {'edits': ['add-empty-dir', 'fill-empty-dir'], 'compare_from': 1}
+        if extra:
+            for a in names:
+                for b in names:
+                    if a != b and (a, b) not in pairs and not (a == 'rm-match' and b == 'rm-match') \
+                            and not (a == 'rename-dir' and b in ('rename-dir', 'add-match-deep')):
+                        yield {'edits': [a, b]}
+
+    def native_check(self, case, raw):
+        import shutil, subprocess, tempfile
+        from pyvc.interp import REPO
+        top = tempfile.mkdtemp(prefix='pyvc_regen_')
+        try:
+            src, b = top + '/src', top + '/b'
+            _write(src + '/build.bfg', "project('p')\na = find_files('d1/*.txt')\nb = find_files('d2/**/*.dat')\n"
+                                      "submodule('sub')\nfor f in a + b:\n    copy_file(f)\n")
+            _write(src + '/options.bfg', "argument('name', default='x')\n")
+            _write(src + '/sub/build.bfg', "copy_file('s.txt')\n")
+            for f in ('sub/s.txt', 'sub/t.txt', 'extra.txt', 'd1/a.txt', 'd2/x.dat', 'd2/deep/y.dat'):
+                _write(src + '/' + f, f)
+            launcher = top + '/bin/bfg9000'
+            _write(launcher, "#!/bin/sh\necho \"$@\" >> %s/calls.log\nPYTHONPATH=%s exec /venv/bin/python -c "
+                   "'import sys; sys.argv[0] = \"%s\"; from bfg9000.driver import main; sys.exit(main())' \"$@\"\n"
+                   % (top, REPO, launcher))
+            _os.chmod(launcher, 0o755)
+            env = dict(_os.environ, PATH=top + '/bin:' + _os.environ['PATH'])
+            env.pop('MAKEFLAGS', None)
+            conf = [launcher, 'configure-into', src, b, '--backend=make', '--no-resolve-packages']
+
+            def run(cmd):
+                return subprocess.run(cmd, env=env, capture_output=True, text=True, timeout=120)
+
+            def calls():
+                try:
+                    with open(top + '/calls.log') as f:
+                        return [l for l in f.read().splitlines() if l.startswith('regenerate')]
+                except OSError:
+                    return []
+
+            def snap(d):
+                out = {}
+                for n in BUILD_FILES:
+                    try:
+                        with open(d + '/' + n) as f:
+                            out[n] = f.read()
+                    except OSError:
+                        out[n] = None
+                return out
+
+            def age(t):
+                for root in (src, b):
+                    for dp, dn, fn in _os.walk(root):
+                        for n in fn + ['']:
+                            _os.utime(_os.path.join(dp, n) if n else dp, (t, t))
+            r = run(conf)
+            if r.returncode != 0:
+                return self.fail(case, raw, 'configure_succeeds', stderr=r.stderr[-400:])
+            for k, e in enumerate(raw['edits']):
+                age(1600000000 + 1000 * k)
+                EDITS[e](src)
+                n0 = len(calls())
+                m = run(['make', '-C', b, 'all'])
+                if m.returncode != 0:
+                    return self.fail(case, raw, 'make_succeeds_after_edit', step=k, edit=e, output=(m.stdout + m.stderr)[-500:])
+                n1 = len(calls())
+                got = snap(b)
+                _os.rename(b, b + '.keep')
+                f = run(conf)
+                fresh = snap(b)
+                shutil.rmtree(b, ignore_errors=True)
+                _os.rename(b + '.keep', b)
+                if f.returncode != 0:
+                    return self.fail(case, raw, 'fresh_configure_succeeds', step=k, stderr=f.stderr[-400:])
+                if k < raw.get('compare_from', 0):
+                    continue
+                for n in BUILD_FILES:
+                    if n == '.bfg_find_deps' and got[n] is not None and fresh[n] is not None:
+                        # the watched directories are written in set-iteration order (varies with the hash seed
+                        # even between two fresh configures: that is C13, not this property): compare as sets
+                        got[n], fresh[n] = (' '.join(sorted(x.split())) for x in (got[n], fresh[n]))
+                    if got[n] != fresh[n]:
+                        return self.fail(case, raw, 'regenerated_build_files_equal_a_fresh_configure', step=k, edit=e,
+                                         file=n, regenerated_ran=n1 - n0, have=(got[n] or '')[-300:],
+                                         fresh=(fresh[n] or '')[-300:])
+                m2 = run(['make', '-C', b, 'all'])
+                if m2.returncode != 0 or len(calls()) != n1:
+                    return self.fail(case, raw, 'second_run_regenerates_nothing', step=k, edit=e,
+                                     extra_regenerations=len(calls()) - n1, output=(m2.stdout + m2.stderr)[-300:])
+            return True
+        finally:
+            shutil.rmtree(top, ignore_errors=True)
+
+
 def registry():
     from contracts import glob as G, paths as P
-    return [FindCacheJson()] + [c for c in G.registry() + P.registry() if 'C08' in c.properties]
+    return [FindCacheJson(), RegenHistory()] + [c for c in G.registry() + P.registry() if 'C08' in c.properties]
